@@ -475,7 +475,11 @@ func (m *Machine) buildCex(kind, label, msg string) *Cex {
 			}
 		}
 		cx.Tape = append(cx.Tape, tv)
-		if e.Kind != "uf" {
+		if e.Kind == "choice" {
+			cx.Model[e.Name] = fmt.Sprint(e.Conc)
+		} else if e.Kind == "bool" {
+			cx.Model[e.Name] = fmt.Sprint(tv.Val != 0)
+		} else if e.Kind != "uf" {
 			cx.Model[e.Name] = fmt.Sprint(sym.SignExt(tv.Val, max(e.W, 1)))
 		} else {
 			as := []string{}
